@@ -1,5 +1,6 @@
 import ComposeVerif.Ops.Common
 import ComposeVerif.Model.Trav
+import ComposeVerif.Model.DepGraph
 /-!
 line-protocol ops for C13
 
@@ -226,6 +227,35 @@ def skips : Handler := fun args =>
   let (g, _) := graphOfArgs args
   Json.arr ((g.verts.filter g.skip).map (fun v => Json.num (JsonNumber.fromNat v))).toArray
 
-def handlers : List (String × Handler) := [("trav.replay", replay), ("trav.skips", skips)]
+/-! `trav.newgraph`: every outcome of `newGraph` + `checkCycle` reachable under some iteration order of the Go maps.
+args: `{"services":[{"name":0,"deps":[[1,true],[9,false]]},…],"disabled":[7,8]}` -/
+
+def insertNat (x : Nat) : List Nat → List Nat
+  | [] => [x]
+  | y :: r => if x ≤ y then x :: y :: r else y :: insertNat x r
+
+def sortNat (l : List Nat) : List Nat := l.foldr insertNat []
+
+def svcOfJson (j : Json) : CV.DepGraph.Svc :=
+  let deps : List CV.DepGraph.Dep := match j.getObjVal? "deps" with
+    | .ok (.arr a) => a.toList.filterMap fun d => match d with
+      | .arr p => match p.toList with
+        | [n, r] => match n.getNat?, r.getBool? with
+          | .ok n, .ok r => some ⟨n, r⟩
+          | _, _ => none
+        | _ => none
+      | _ => none
+    | _ => []
+  ⟨getNat j "name", deps⟩
+
+def newgraph : Handler := fun args =>
+  let svcs : List CV.DepGraph.Svc := match args.getObjVal? "services" with
+    | .ok (.arr a) => a.toList.map svcOfJson
+    | _ => []
+  let p : CV.DepGraph.Proj := ⟨svcs, natList args "disabled"⟩
+  let outs := (CV.DepGraph.outcomes p).map fun o => o.cls ++ ":" ++ " ".intercalate ((sortNat o.changed).map ns)
+  Json.arr ((outs.eraseDups).map Json.str).toArray
+
+def handlers : List (String × Handler) := [("trav.replay", replay), ("trav.skips", skips), ("trav.newgraph", newgraph)]
 
 end CV.Ops.C13
